@@ -89,13 +89,24 @@ func (l *link) exec(kind, key string, payload []byte, exp uint64, apply func(rec
 	if rule != nil && rule.SetLat {
 		req, resp = rule.ReqLat, rule.RespLat
 	}
-	o.opsInFlight++
+	if !s.lean {
+		o.opsInFlight++
+	}
 	s.tr.Ops = append(s.tr.Ops, rec)
 	s.mu.Unlock()
 	vclock.Store(int64(s.now()))
 
 	var err error
 	finish := func() (*OpRec, error) {
+		if s.lean {
+			// nothing shared is touched on the way back into the library (rec belongs to this goroutine
+			// until teardown has joined it)
+			rec.ReturnT = s.now()
+			if err != nil {
+				rec.Err = err.Error()
+			}
+			return rec, err
+		}
 		s.mu.Lock()
 		rec.ReturnT = s.now()
 		rec.ReturnSeq = s.nextSeq()
@@ -243,7 +254,8 @@ type linkWatcher struct {
 	stop    chan struct{}
 	id      int
 	mu      sync.Mutex
-	stopped bool
+	stopped bool // Stop() called by the library
+	killed  bool // channel closed by the store side (ActCloseWatch)
 }
 
 func (lw *linkWatcher) Updates() <-chan leader.Entry { return lw.out }
@@ -252,10 +264,25 @@ func (lw *linkWatcher) Stop() {
 	lw.mu.Lock()
 	if !lw.stopped {
 		lw.stopped = true
-		close(lw.stop)
+		if !lw.killed {
+			close(lw.stop)
+		}
 	}
 	lw.mu.Unlock()
 	lw.w.Stop()
+}
+
+// kill ends the watcher from the store's side: the pump returns and closes the
+// update channel, as nats.go does when the watcher's subscription is closed.
+func (lw *linkWatcher) kill() bool {
+	lw.mu.Lock()
+	defer lw.mu.Unlock()
+	if !lw.stopped && !lw.killed {
+		lw.killed = true
+		close(lw.stop)
+		return true
+	}
+	return false
 }
 
 func (lw *linkWatcher) isStopped() bool {
